@@ -137,6 +137,21 @@ func checkC27(p *Prog, r *Report) {
 		}
 		r.check(okk, rule, "NotExecutable < Unreachable < Uncovered < Covered", "-", "", "the enum values increase with the quality of the observation", "the line-state constants are no longer declared in increasing order of quality: taking the greater state no longer means taking the best one")
 	}
+	// every copy of the build state (per subrepo, per architecture) aggregates into one shared map: the map exists before
+	// the state can be copied (BuildState.Copy copies the struct, so only a non-nil map is shared)
+	if nbs := p.Fn("core", "NewBuildState"); nbs == nil {
+		r.unresolved("E5.aggregate-every-file", "core.NewBuildState")
+	} else {
+		made := false
+		eachInstr(nbs, false, func(_ *ssa.Function, i ssa.Instruction) {
+			if st, ok := i.(*ssa.Store); ok && fieldKey(st.Addr) == "core.TestCoverage.Files" {
+				if _, isMk := st.Val.(*ssa.MakeMap); isMk {
+					made = true
+				}
+			}
+		})
+		r.check(made, "E5.aggregate-every-file", "the shared coverage map is created with the build state", p.pos(nbs.Pos()), fnName(nbs), "NewBuildState stores a fresh map into Coverage.Files", "NewBuildState leaves Coverage.Files nil and relies on Aggregate creating it lazily: a state copied (for a subrepo or another architecture) before the first result arrives gets a map of its own, so runs logged through that copy never reach the aggregate `plz cover` reports from - which runs count depends on which test finishes first")
+	}
 	rule = "E5.aggregate-every-file"
 	{
 		okk := false
@@ -565,6 +580,75 @@ func checkC26(p *Prog, r *Report) {
 		if nF < 4 {
 			r.unresolved(rule, "repeated child elements of jUnitXMLTest (found "+itoa(nF)+")")
 		}
+	}
+	// the XML parser reports success only at the end of the document: more than one report can follow in a results file
+	if px := p.Fn("test", "parseJUnitXMLTestResults"); px == nil {
+		r.unresolved("E5.xml-read-to-the-end", "test.parseJUnitXMLTestResults")
+	} else {
+		n, early := 0, false
+		for _, rc := range returnCases(px, 1) {
+			if !isNilConst(rc.Vals[1]) {
+				continue
+			}
+			n++
+			atEOF := false
+			for _, f := range rc.Facts {
+				if bo, ok := f.V.(*ssa.BinOp); ok && bo.Op == token.EQL && f.Val {
+					for _, op := range []ssa.Value{bo.X, bo.Y} {
+						for x := range backSlice(op, SliceOpts{StopAtCall: func(*ssa.Call) bool { return true }}) {
+							if g, ok := x.(*ssa.Global); ok && g.Name() == "EOF" {
+								atEOF = true
+							}
+						}
+					}
+				}
+			}
+			if !atEOF {
+				early = true
+			}
+		}
+		r.check(n > 0 && !early, "E5.xml-read-to-the-end", "parseJUnitXMLTestResults returns success only at io.EOF", p.pos(px.Pos()), fnName(px), itoa(n)+" nil-error return(s), each under err == io.EOF", "the JUnit parser returns successfully before the end of the input (e.g. after the first </testsuites>): what follows in the results file - a second report appended by a wrapper that runs two binaries - is dropped, and if the failures were there the target is reported as passing")
+	}
+	// the cases Please invents for a target (success of a no_test_output target, synthetic failures) name the test the same
+	// way, so that attempts of a flaky test collate: either all of them carry a class name or none does
+	if pto := p.Fn("test", "parseTestOutput"); pto == nil {
+		r.unresolved("E9.synthetic-cases-agree-on-identity", "test.parseTestOutput")
+	} else {
+		with, without := 0, 0
+		for _, g := range withAnon(pto) {
+			seen := map[ssa.Value]bool{}
+			eachInstr(g, false, func(_ *ssa.Function, i ssa.Instruction) {
+				st, ok := i.(*ssa.Store)
+				if !ok || fieldKey(st.Addr) != "core.TestCase.Name" {
+					return
+				}
+				base := receiverOf(st.Addr)
+				if base == nil || seen[base] {
+					return
+				}
+				seen[base] = true
+				hasClass := false
+				if refs := base.Referrers(); refs != nil {
+					for _, u := range *refs {
+						if fa, ok := u.(*ssa.FieldAddr); ok && fieldKey(fa) == "core.TestCase.ClassName" {
+							if frefs := fa.Referrers(); frefs != nil {
+								for _, w := range *frefs {
+									if _, ok := w.(*ssa.Store); ok {
+										hasClass = true
+									}
+								}
+							}
+						}
+					}
+				}
+				if hasClass {
+					with++
+				} else {
+					without++
+				}
+			})
+		}
+		r.check(with+without > 0 && (with == 0 || without == 0), "E9.synthetic-cases-agree-on-identity", "the test cases built in parseTestOutput agree on whether they carry a class name", p.pos(pto.Pos()), fnName(pto), itoa(with)+" with, "+itoa(without)+" without a class name", "some of the cases parseTestOutput builds for a target set ClassName and others do not: TestSuite.Add collates attempts by (class name, name), so a failed attempt and a later passing attempt of a flaky no_test_output test stay two cases and the target is reported failing although it passed within its flakiness allowance")
 	}
 	rule = "E12.results-files"
 	{
